@@ -469,6 +469,13 @@ SCOPE_ALPHABET = [
 ]
 
 
+SCOPE3_ALPHABET = [
+    'apps 1 1', 'apps 0 3', 'apps 3 1', 'pres 1 1', 'pres 3 3', 'pres 0 2', 'appb 1 6162636465', 'appc 3 33', 'asg 1 0', 'asg 3 1', 'asg 3 3',
+    'copy 3', 'drop', 'clear 1', 'resize 1 5 120', 'resize 3 2 120', 'reserve 1 9', 'poke 1 0 90', 'cstr 3', 'attach 1 0 1 2', 'reps 3 3 1',
+    'join 1 44 1 3', 'lower 2', 'printf 3 7071', 'trim 3 78',
+]
+
+
 class C06(Check):
     id = 'C06'
     comp = 'Str'
@@ -519,7 +526,7 @@ class C06(Check):
                    'strstr/strpbrk/strchr of libc behave as first-occurrence search on NUL-free text (reference functions in StrModel.v)',
                    'an indeterminate byte at str[len] is taken as non-zero by the C-string view (either answer yields a terminated view)',
                    'StrSpec.v is the reading of the property text (values = byte lists, pure reference functions, domain predicate pre)']
-    per_case_timeout = 2
+    per_case_timeout = 1
 
     def __init__(self):
         super().__init__()
@@ -599,21 +606,23 @@ class C06(Check):
     def streams(self, tier, rng):
         th = tier == 'thorough'
         out = []
-        out.append(Stream('core', self.gen_stream(rng, 12000 if th else 1500, (6, 30), ops=CORE_OPS),
+        out.append(Stream('core', self.gen_stream(rng, 40000 if th else 1500, (6, 30), ops=CORE_OPS),
                           note='construct / copy / assign / attach / append / prepend / resize / reserve / clear / C-string view only (the operations of the heap proof), NUL-free text'))
-        out.append(Stream('text', self.gen_stream(rng, 20000 if th else 2500, (6, 30)),
+        out.append(Stream('text', self.gen_stream(rng, 60000 if th else 2500, (6, 30)),
                           note='all operations, NUL-free text (the domain of the C-string based searches)'))
-        out.append(Stream('binary', self.gen_stream(rng, 8000 if th else 800, (6, 26), binary=True),
+        out.append(Stream('binary', self.gen_stream(rng, 25000 if th else 800, (6, 26), binary=True),
                           note='all operations, byte strings with embedded NUL bytes (C-string based operations only where the shadow knows the operand is NUL-free)'))
-        out.append(Stream('selfargs', self.gen_stream(rng, 8000 if th else 800, (5, 20), self_bias=0.7),
+        out.append(Stream('selfargs', self.gen_stream(rng, 25000 if th else 800, (5, 20), self_bias=0.7),
                           note='String arguments are the variable itself or a sharer of its block 70% of the time'))
-        out.append(Stream('long', self.gen_stream(rng, 600 if th else 60, (60, 140), big=True),
+        out.append(Stream('long', self.gen_stream(rng, 2000 if th else 60, (60, 140), big=True),
                           note='long histories, lengths up to 300 (printf first/second pass, capacity growth)'))
         out.append(Stream('scope1', scope_cases(1, SCOPE_ALPHABET), exhaustive=True,
                           note='every single operation of a %d-operation alphabet after a fixed prologue (literal, shared owned, unterminated view)' % len(SCOPE_ALPHABET)))
+        out.append(Stream('scope2', scope_cases(2, SCOPE_ALPHABET), exhaustive=True,
+                          note='every history of 2 operations over the same alphabet'))
         if th:
-            out.append(Stream('scope2', scope_cases(2, SCOPE_ALPHABET), exhaustive=True,
-                              note='every history of 2 operations over the same alphabet'))
+            out.append(Stream('scope3', scope_cases(3, SCOPE3_ALPHABET), exhaustive=True,
+                              note='every history of 3 operations over a %d-operation alphabet (copy / assign / append / prepend / resize / clear / view / attach incl. self arguments)' % len(SCOPE3_ALPHABET)))
         return out
 
     def nontrivial(self, case, obs):
